@@ -65,6 +65,7 @@ def run(ctx: Ctx, rep: Report) -> None:
     rep.rule("C18-R1", "everything the override step may write on the client is saved before and restored in a finally covering the yield", floor=3)
     rep.rule("C18-R2", "configure validates its settings before the first store to self and cannot fail after one", floor=1)
     rep.rule("C18-R3", "settings reach the sender and the message layer through attribute reads at send time", floor=5)
+    rep.rule("C18-R6", "the context engine id and name given to the message-processing model reach the scoped PDU of the request (shared with C05-R4)", floor=1)
     rep.rule("C18-R5", "requests issued inside an override block leave nothing behind: every store to state shared between requests is a justified, request-independent instance (shared with C14-R1)", floor=6)
     rep.rule("C18-R4", "a change of credential family installs the MPM of the new credentials", floor=3)
     rep.level = "proof"
@@ -265,6 +266,11 @@ def run(ctx: Ctx, rep: Report) -> None:
                         return got
             return None
         if isinstance(expr, ast.Call):
+            from .common import bound_method_as_closure
+
+            as_closure = bound_method_as_closure(ctx, fn_, expr)  # Cls(self, sender, ..) with __call__
+            if as_closure is not None:
+                return as_closure
             for callee in ctx.r.callees(fn_, expr):
                 if isinstance(callee, FuncInfo) and not callee.module.external:
                     for r in own_nodes(callee.node):
@@ -404,6 +410,8 @@ def run(ctx: Ctx, rep: Report) -> None:
         ok = cls.name in want and ident == want[cls.name] and ident in plugin_ids and ident in rfc.VERSION_BY_MPM
         rep.check(ok if cls.name in want else None, "C18-R4", f"{cls.module.path}:{cls.node.lineno} ({cls.name})", f"{cls.name} credentials select message-processing model {want.get(cls.name)} (RFC 3411) which exists as a plug-in", f"mpm = {ident}; plug-ins: {sorted(i for i in plugin_ids if i is not None)}", key=f"credentials|{cls.name}|mpm-id")
     rep.adopt_rules(ctx.sub_run("c14", rep), "C18-R5", ["C14-R1"])
+    # the (possibly overridden) context handed to the message-processing model is what the scoped PDU carries
+    rep.adopt_rules(ctx.sub_run("c05", rep), "C18-R6", ["C05-R4"], containing="scoped PDU")
 
 
 def credential_mpm(ctx: Ctx, cls: ClassInfo) -> Optional[int]:
